@@ -11,6 +11,12 @@ VERIF = os.path.dirname(os.path.dirname(os.path.abspath(__file__)))
 MC = "model_checking"
 
 CLAIMS = {
+    "C16": dict(
+        engine="NixFrame",
+        technique="TLA+ spec NixFrame (columns x rows of write stamps) checked by TLC + replay of every exported transition against DataFrame, all read paths, reopen",
+        text="NixFrame models a data frame as typed named columns and rows of write stamps; TLC checks ShapeMatches, RefusedUnchanged, CellFrame (a write changes only the addressed cells), AppendKeeps, TypesFixed over every history of the four creation variants, append rows / column, overwrite of rows, columns and cells addressed by index and by name (column 0 and the last row included), units and refused writes; each transition is replayed from an empty file and the table is read through every read path, two long-lived handles and a fresh one, and after reopening read-only and read-write.",
+        note="Trusted: TLC; a 40-line stamp interpreter in the harness re-derives intermediate states of the history and is cross-checked against TLC's pre-state on every transition; schemas of 1-6 columns over text/int64/float64/bool/int8, <= 4 rows, depth 4.",
+        design_ref="6/C16"),
     "C11": dict(
         engine="NixOpen",
         technique="TLA+ specs NixOpen (gating function, laws checked by TLC) and NixSession x NixModel (read-only sessions placed by TLC in write histories) + execution of every vector / schedule against File.open and real read-only sessions (sha256, projection)",
